@@ -85,7 +85,9 @@ def gen_tokens(rng, regime, opts=()):
         for _ in range(rng.range(1, 3)):
             g.emit(rng.choice(["OP_DUP", "OP_DROP", "OP_SWAP", "OP_TOALTSTACK", "OP_FROMALTSTACK", "OP_DEPTH", "OP_SIZE", "OP_IFDUP", "OP_NIP", "OP_OVER", 3, 0, "OP_CODESEPARATOR"]))
     else:
-        g.emit(*rng.choice([[1, "OP_IF"], [0, "OP_IF"], ["OP_ELSE"], ["OP_ENDIF"], [0, "OP_NOTIF", 5, "OP_ENDIF"], [1, "OP_IF", 2, "OP_ELSE", 3, "OP_ENDIF"]]))
+        g.emit(*rng.choice([[1, "OP_IF"], [0, "OP_IF"], ["OP_ELSE"], ["OP_ENDIF"], [0, "OP_NOTIF", 5, "OP_ENDIF"], [1, "OP_IF", 2, "OP_ELSE", 3, "OP_ENDIF"],
+                            [0, "OP_IF", "OP_CODESEPARATOR", "OP_ENDIF"], [1, "OP_IF", "OP_CODESEPARATOR", "OP_ENDIF"], ["OP_CODESEPARATOR"],
+                            [1, "OP_NOTIF", "OP_CODESEPARATOR", "OP_ELSE", 4, "OP_ENDIF"]]))
     toks = g.toks[:6]
     if regime == "fault":
         bad = G.failing_op(rng) if rng.chance(50) else G.throwing_op(rng)
@@ -280,6 +282,16 @@ def evaluate_splice(ctx, scn):
     if ref.crashed:
         ev.counters["ref_incomplete"] += 1
         return ev
+    splice_len = len(spliced) - len(raw)
+
+    def map_offset(r):
+        """byte offset in the spliced reference script -> the corresponding offset in the session's script
+        (everything inside the splice corresponds to the exec point)"""
+        if r < 0 or r <= cut:
+            return r
+        if r <= cut + splice_len:
+            return cut
+        return r - splice_len
     kk = k                  # position inside the script (for the messages)
     k = k + base            # position in the session: the commitment steps come first
     items = [["sync"]] + [["step"]] * k + ([["exec"] + [t[0] for t in toks]]) + [["step"]] * (nops - kk + 2)
@@ -412,6 +424,15 @@ def evaluate_splice(ctx, scn):
         if 0 <= net < len(ref.states):
             rbb, rwb_full = ref.states[net]
             rprobe = ref.probes[net]
+            # the start of the signed script code: where the reference has it, translated to the session's script
+            if (c.post and rprobe and c.post.get("pbegincodehash", "") not in ("", "-1") and rprobe.get("pbegincodehash", "") not in ("", "-1")
+                    and c.post.get("script") == raw.hex()):
+                want_cs = map_offset(int(rprobe["pbegincodehash"]))
+                if int(c.post["pbegincodehash"]) != want_cs and not tainted:
+                    ev.add(PROP, "state-after-exec" if kind == "exec" else "continuation", "pbegincodehash",
+                           "after `%s` the signed script code starts at byte %s of the script; with the tokens inside the script it would start at byte %d"
+                           % (session.render_item(c.item)[:60], c.post["pbegincodehash"], want_cs))
+                    tainted = True
             a, b = sub(c.post), sub(rprobe)
             clause = "state-after-exec" if kind == "exec" else "continuation"
             if a is not None and b is not None and a != b:
